@@ -133,7 +133,12 @@ fn payload(k: usize, enum_field: bool) -> Vec<Instr> {
 fn member_event(ctx: &mut Ctx, k: usize, cats: &[&str], enum_field: bool) -> (Vec<Instr>, &'static str) {
     match ctx.choose(6) {
         0 => (vec![], "plain"),
-        1 => (vec![Instr::new("map", Some("T"), &format!("~ + {}", 300 + k))], "own"),
+        1 => {
+            // the member's own map-category instruction: same kind as the repeated one, or a different kind / dedication
+            // (the repeated instruction must still reach the kinds the own one does not cover - seed C14-02)
+            let (n, d, t) = [("map", Some("T"), "own"), ("from", Some("T"), "own-from"), ("into", Some("T"), "own-into"), ("from", None, "own-from-default")][ctx.choose(4)];
+            (vec![Instr::new(n, d, &format!("~ + {}", 300 + k))], t)
+        }
         2 => {
             let c = cats[ctx.choose(cats.len())];
             let mut v = vec![Instr::new("repeat", None, c)];
